@@ -78,7 +78,7 @@ func H_C15_update() {
 	ndev := nondetLen("ndev", 1, vparam("NDEV"))
 	devs := make([]string, ndev)
 	for i := range devs {
-		devs[i] = nondetStringU("dev"+string(rune('0'+i)), vparam("DEVLEN"))
+		devs[i] = nondetString("dev"+string(rune('0'+i)), vparam("DEVLEN"))
 	}
 	// initial map: nil, empty, one foreign key, one CDI key (may collide with the generated one), both
 	var ann map[string]string
@@ -141,10 +141,15 @@ func H_C15_parse() {
 	// two entries; each key has or has not the CDI prefix (same length, the solver decides)
 	k1 := nondetStringN("k1", 12)
 	k2 := nondetStringN("k2", 12)
-	v1 := nondetStringU("v1", vparam("VLEN"))
-	v2 := nondetStringU("v2", vparam("VLEN"))
-	vassume(k1 != k2)
 	n := nondetLen("entries", 0, 2)
+	v1, v2 := "", ""
+	if n >= 1 {
+		v1 = nondetString("v1", vparam("VLEN"))
+	}
+	if n >= 2 {
+		v2 = nondetString("v2", vparam("VLEN"))
+	}
+	vassume(k1 != k2)
 	m := map[string]string{}
 	if n >= 1 {
 		m[k1] = v1
